@@ -1,7 +1,7 @@
 (* Executable entry points for the C20 correspondence shards. *)
 From Coq Require Import List NArith ZArith Bool.
 From AdltV Require Import Base.Obs Base.Res Base.MachInt.
-From AdltV Require Export Archive.Chain.
+From AdltV Require Export Archive.Chain Archive.Paths.
 Import ListNotations.
 Open Scope N_scope.
 
@@ -11,8 +11,19 @@ Definition cur_neg (n : N) : op := Seek (Current (- Z.of_N n)).
 Definition end_pos (n : N) : op := Seek (End (Z.of_N n)).
 Definition end_neg (n : N) : op := Seek (End (- Z.of_N n)).
 
+Definition mm (name : str) (symlink : bool) (data : list N) : member :=
+  {| m_name := name; m_symlink := symlink; m_data := data |}.
+
+(* the target directory of the model runs (the implementation's is a fresh temp dir; everything observed
+   is relative to it) *)
+Definition T0 : loc := [[116; 109; 112]; [116]].
+
 Inductive case_C20 :=
-| CChain (datas : list (list N)) (ops : list op).
+| CChain (datas : list (list N)) (ops : list op)
+  (* extract_to_dir: what the target dir holds before, files_filter, rename_map, members as presented by the zip crate *)
+| CExtract (inside : list (loc * node)) (filter : option (list str)) (rn : list (str * str)) (ms : list member)
+  (* extract_archives: glob pattern text, file_names() with Pattern::matches, archive stem with Pattern::matches, members *)
+| CArchives (pattern : str) (entries : list (str * bool)) (stem : str) (stem_matches : bool) (ms : list member).
 
 Definition o_bytes (l : list N) : otree := T (map L l).
 Definition o_opres (r : opres) : otree :=
@@ -27,8 +38,51 @@ Definition o_chain (r : res (list opres)) : otree :=
   | OutOfFuel => T [L 2]
   end.
 
+(* file-system observation: the entries strictly inside T0 (relative), and whether everything else is
+   as it was *)
+Fixpoint strip (p l : loc) : loc :=
+  match p, l with _ :: p', _ :: l' => strip p' l' | _, _ => l end.
+Definition o_entry (e : loc * node) : otree :=
+  match snd e with
+  | D => T [T (map o_bytes (fst e)); L 0; T []]
+  | F c => T [T (map o_bytes (fst e)); L 1; o_bytes c]
+  end.
+Definition tree_of (fs : fsys) : list otree :=
+  map (fun e => o_entry (strip T0 (fst e), snd e)) (filter (fun e => strictly_inside T0 (fst e)) fs).
+Definition outside_untouched (fs : fsys) : bool :=
+  forallb (fun e => strictly_inside T0 (fst e) ||
+                    (existsb (loc_eqb (fst e)) (prefixes T0) && match snd e with D => true | F _ => false end)) fs.
+
+(* Ok(list): T [L 0; names; tree; untouched]   Err: T [L 1; T []; tree; untouched]
+   extract_archives without a match: T [L 2; T []; T []; L 1] *)
+Definition o_outcome (o : outcome) : otree :=
+  match o with
+  | Done fs rep => T [L 0; T (map o_bytes rep); T (tree_of fs); ob (outside_untouched fs)]
+  | Failed fs => T [L 1; T []; T (tree_of fs); ob (outside_untouched fs)]
+  end.
+
 Definition run_C20 (c : case_C20) : otree :=
   match c with
   | CChain datas ops => o_chain (chain_session datas ops)
+  | CExtract inside filter rn ms => o_outcome (extract_to_dir (init_fs T0 inside) T0 filter rn ms)
+  | CArchives pattern entries stem sm ms =>
+      match extract_archives (init_fs T0 []) T0 pattern entries stem sm ms with
+      | Some (Failed fs) => T [L 1; T []; T []; ob (outside_untouched fs)]   (* the new temp dir is dropped *)
+      | Some o => o_outcome o
+      | None => T [L 2; T []; T []; L 1]
+      end
   end.
-Definition agree_C20 : case_C20 -> otree -> bool := agree_det run_C20.
+
+(* trees are compared as sets (the implementation's directory listing has no defined order) *)
+Definition same_set (a b : list otree) : bool :=
+  Nat.eqb (length a) (length b) && forallb (fun x => existsb (otree_eqb x) b) a && forallb (fun x => existsb (otree_eqb x) a) b.
+Definition agree_C20 (c : case_C20) (o : otree) : bool :=
+  match c with
+  | CChain _ _ => otree_eqb (run_C20 c) o
+  | _ =>
+      match run_C20 c, o with
+      | T [k; names; T tree; u], T [k'; names'; T tree'; u'] =>
+          otree_eqb k k' && otree_eqb names names' && same_set tree tree' && otree_eqb u u'
+      | _, _ => false
+      end
+  end.
